@@ -133,6 +133,9 @@ func init() {
 		}
 		g := v.Gen(w, c, MixLP)
 		g.MaxTx = 8
-		g.Free(c.N(120, 400), g.StdDt)
+		n := c.N(120, 400)
+		g.Free(n/3, g.StdDt)
+		exitAgainstCustody(c, w)
+		g.Free(n-n/3, g.StdDt)
 	})
 }
